@@ -57,6 +57,8 @@ class Wchar(str, BaseType):
             count *= 2
 
         data = stream.read(-1 if count == EOF else count)
+        if count == EOF and len(data) % 2:
+            raise EOFError(f"Read {len(data)} bytes, but expected {len(data) - 1}")
         if count != EOF and len(data) != count:
             raise EOFError(f"Read {len(data)} bytes, but expected {count}")
 
